@@ -164,28 +164,42 @@ impl FileSystem {
         self.resolve_abs_path(format!(".upload-{upload_id}.json"))
     }
 
-    pub(crate) async fn create_upload_id(&self, cred: Option<&Credentials>) -> Result<Uuid> {
+    /// Creates an upload id that belongs to the creating identity, the bucket and the key.
+    pub(crate) async fn create_upload_id(&self, cred: Option<&Credentials>, bucket: &str, key: &str) -> Result<Uuid> {
         let upload_id = Uuid::new_v4();
         let upload_info_path = self.get_upload_info_path(&upload_id)?;
 
         let ak: Option<&str> = cred.map(|c| c.access_key.as_str());
 
-        let content = serde_json::to_vec(&ak)?;
+        let content = serde_json::to_vec(&serde_json::json!({ "access_key": ak, "bucket": bucket, "key": key }))?;
         fs::write(&upload_info_path, &content).await?;
 
         Ok(upload_id)
     }
 
-    pub(crate) async fn verify_upload_id(&self, cred: Option<&Credentials>, upload_id: &Uuid) -> Result<bool> {
+    /// Checks that the upload exists and was created by the same identity for the same bucket and key.
+    pub(crate) async fn verify_upload_id(
+        &self,
+        cred: Option<&Credentials>,
+        upload_id: &Uuid,
+        bucket: &str,
+        key: &str,
+    ) -> Result<bool> {
         let upload_info_path = self.get_upload_info_path(upload_id)?;
         if upload_info_path.exists().not() {
             return Ok(false);
         }
 
         let content = fs::read(&upload_info_path).await?;
-        let ak: Option<String> = serde_json::from_slice(&content)?;
+        let ak = cred.map(|c| c.access_key.as_str());
 
-        Ok(ak.as_deref() == cred.map(|c| c.access_key.as_str()))
+        match serde_json::from_slice::<serde_json::Value>(&content)? {
+            serde_json::Value::Object(info) => Ok(info.get("access_key").and_then(|v| v.as_str()) == ak
+                && info.get("bucket").and_then(|v| v.as_str()) == Some(bucket)
+                && info.get("key").and_then(|v| v.as_str()) == Some(key)),
+            // written by an earlier version: the access key only
+            info => Ok(info.as_str() == ak),
+        }
     }
 
     pub(crate) async fn delete_upload_id(&self, upload_id: &Uuid) -> Result<()> {
